@@ -44,6 +44,12 @@ def run(tier, seed):
             else:
                 check("power-mixed", p + u, "_close((1 * (%s * %s) ** %d).unprefixed(), (1 * (%s ** %d * %s ** %d)).unprefixed())" % (p, u, n, p, n, u, n))
             check("divide", p + u, "_close(((6 * %s) / (2 * (%s * %s))).unprefixed(), (3 / %s.quantify()) * One)" % (u, p, u, p))
+    # a prefixed dimensionless unit (p*One, or the leftover of a cancelled quotient) is still a prefix factor
+    for p in prefixes:
+        for u in unit_sample[:6]:
+            check("dimensionless-right-mul", p + u, "_close(((2 * %s) * (%s * One)).unprefixed(), ((2 * %s.quantify()) * %s).unprefixed())" % (u, p, p, u))
+            check("dimensionless-right-div", p + u, "_close(((6 * %s) / (%s * One)).unprefixed(), ((6 / %s.quantify()) * %s).unprefixed())" % (u, p, p, u))
+            check("cancelled-quotient", p + u, "_close(((2 * %s) * ((3 * (%s * %s)) / (1 * %s))).unprefixed(), ((6 * %s.quantify()) * %s).unprefixed())" % (u, p, u, u, p, u))
     same = {}
     for p in prefixes:
         same.setdefault(ns[p].base, []).append(p)
